@@ -364,7 +364,16 @@ class StopDepth(Exception):
 class Env:
     def __init__(self, parent=None):
         self.vars = {}
+        self.types = {}
         self.parent = parent
+
+    def declared_type(self, name):
+        e = self
+        while e is not None:
+            if name in e.vars:
+                return e.types.get(name)
+            e = e.parent
+        return None
 
     def lookup_frame(self, name):
         e = self
@@ -436,6 +445,7 @@ class Executor:
         self.module_stack = []
         self.ret_ty_stack = []
         self.self_ty_stack = []
+        self.type_hint = None
 
     # ---- symbolic booleans ----------------------------------------------------------------------
     def bool_of(self, t):
@@ -695,6 +705,8 @@ class Executor:
                 if f is not None and name in self.prog.fns:
                     mod = [m for m, ff in self.prog.fns[name] if ff is f][0]
                     return self.call_fn(f, args, mod)
+        if len(segs) >= 2 and segs[-2] == "Self" and self.self_ty_stack and self.self_ty_stack[-1] in self.prog.enums:
+            return Variant(self.self_ty_stack[-1] + "::" + name, list(args))
         # tuple-struct / tuple-variant constructor of a known enum
         if len(segs) >= 2 and segs[-2] in self.prog.enums:
             return Variant(segs[-2] + "::" + name, list(args))
@@ -730,7 +742,15 @@ class Executor:
                     self._declare(s["pat"], env)
                     v = UNIT
                     continue
-                val = self.expr(s["init"], env)
+                saved_hint = self.type_hint
+                if s.get("ty"):
+                    self.type_hint = s["ty"]
+                try:
+                    val = self.expr(s["init"], env)
+                finally:
+                    self.type_hint = saved_hint
+                if s.get("ty") and s["pat"]["k"] == "PIdent":
+                    env.types[s["pat"]["name"]] = s["ty"]
                 if s["else"] is not None:
                     if not self.bind(s["pat"], val, env):
                         self.expr(s["else"], env)
@@ -851,6 +871,8 @@ class Executor:
         return None
 
     def _match_variant(self, path, elems, spat, val, env, irrefutable, unit=False):
+        if path.startswith("Self::") and self.self_ty_stack and self.self_ty_stack[-1]:
+            path = self.self_ty_stack[-1] + path[4:]
         vname = norm_path(path)
         v = deref(val)
         by_ref = isinstance(val, RefV)
@@ -1043,7 +1065,19 @@ class Executor:
 
     def e_Call(self, e, env):
         f = e["f"]
-        args = [self.expr(a, env) for a in e["args"]]
+        saved_hint = self.type_hint
+        if f["k"] == "Path" and "::" in f["path"]:
+            segs = f["path"].split("::")
+            en = segs[-2] if segs[-2] != "Self" else (self.self_ty_stack[-1] if self.self_ty_stack else None)
+            ed = self.prog.enums.get(en) if en else None
+            if ed:
+                for v_ in ed["variants"]:
+                    if v_["name"] == segs[-1] and v_["fields"]:
+                        self.type_hint = v_["fields"][0]["ty"]
+        try:
+            args = [self.expr(a, env) for a in e["args"]]
+        finally:
+            self.type_hint = saved_hint
         if f["k"] == "Path":
             p = f["path"]
             if "::" not in p:
@@ -1344,7 +1378,15 @@ class Executor:
         return Closure(e["inputs"], e["body"], env)
 
     def e_Assign(self, e, env):
-        v = self.expr(e["r"], env)
+        saved_hint = self.type_hint
+        if e["l"]["k"] == "Path" and "::" not in e["l"]["path"]:
+            t = env.declared_type(e["l"]["path"])
+            if t:
+                self.type_hint = t
+        try:
+            v = self.expr(e["r"], env)
+        finally:
+            self.type_hint = saved_hint
         if e["l"]["k"] == "Path" and e["l"]["path"] == "_":
             return UNIT
         self.place(e["l"], env).set(v)
@@ -1523,6 +1565,14 @@ def builtin_method(ex, recv, name, args, node):
             recv.place.set(none())
             return old
         return r0
+    if name == "get_or_insert_with" and isinstance(recv, RefV):
+        cur = deref(recv.place.get())
+        if isinstance(cur, Variant) and cur.name == NONE:
+            cur = some(ex.call_value(args[0], [], node))
+            recv.place.set(cur)
+        if isinstance(cur, Variant) and cur.name == SOME:
+            return RefV(Place(cur.payload, 0))
+        raise Unsupported("get_or_insert_with on %r" % (cur,))
     if name in ("is_some", "is_none", "is_ok", "is_err") and not args:
         want = {"is_some": SOME, "is_none": NONE, "is_ok": OK, "is_err": ERR}[name]
         if isinstance(r0, Variant):
